@@ -99,7 +99,9 @@ def showObs (c : Cfg) (s : St) : String :=
   let bs := (List.range c.nv).map fun j =>
     s!"b{j}={showList ((List.range (6 + c.nv)).map (s.bal j))}"
   let q := showList ((List.range c.nv).map fun j => payback c j 1000000007)
-  " ".intercalate (vs ++ bs ++ [s!"q={q}"])
+  -- the denom without a vault (asset index nv): accounts 0..5 and every vault
+  let junk := showList ((List.range (6 + c.nv)).map (s.bal c.nv))
+  " ".intercalate (vs ++ bs ++ [s!"q={q}", s!"junk={junk}"])
 
 /-- `init vaultchain nv=N kinds=k,… fees=p:f:b,… bals=a0:…:a5,… deps=d0:d1:d2,…`
     (`bals` = what accounts 0..5 hold of each asset before the users' deposits `deps` into its vault) -/
@@ -121,14 +123,16 @@ def initSt (ws : List String) : Option (Cfg × St) := do
     let s : St := {
       pend := fun _ => 0, allTime := fun _ => 0, burned := fun _ => 0, ctr := fun _ => 0
       bal := fun j a =>
-        if j ≥ nv then 0
+        -- asset index nv: the denom without a vault; accounts 0..3 hold 2^100 of it
+        if j = nv then (if a < 4 then WW.Vault.JUNK0 else 0)
+        else if j > nv then 0
         else if a < 3 then (bals.getD j []).getD a 0 - (deps.getD j []).getD a 0
         else if a < 6 then (bals.getD j []).getD a 0
         else if a = 6 + j then (deps.getD j []).foldl (· + ·) 0
         else 0 }
     some (c, s)
 
-def parseOp (ws : List String) : Option Op :=
+def parseBase (ws : List String) : Option Op :=
   match ws with
   | ["rloan", w, l, pl] => do
     let w ← w.toNat?
@@ -146,8 +150,40 @@ def parseOp (ws : List String) : Option Op :=
     if w ≥ 4 ∨ i ≥ 5 then none else pure (.xcomplete w i (← parseLoanList l))
   | _ => none
 
+/-- the sender of a message (who pays coins attached to it); `none`: no stray-coin suffix allowed -/
+def senderOf : Op → Option Nat
+  | .rloan w _ _ => some w
+  | .collect _ => some 1
+  | .xnext w _ _ _ => some w
+  | .xcomplete w _ _ => some w
+  | _ => none
+
+/-- `+<sel>:<amount>`: sel = j < nv the native denom of vault j's asset, sel = nv the denom without a vault -/
+def parseStray (t : String) : Option (Nat × Nat) :=
+  match t.toList with
+  | '+' :: rest =>
+    match (String.ofList rest).splitOn ":" with
+    | [a, b] => do
+      let sel ← a.toNat?; let n ← b.toNat?
+      if n = 0 then none else pure (sel, n)
+    | _ => none
+  | _ => none
+
+/-- an op line, optionally ending in a stray-coin token `+<sel>:<amount>` (coins attached to the
+    message by its sender) -/
+def parseOp (c : Cfg) (ws : List String) : Option Op :=
+  match ws.getLast? with
+  | none => none
+  | some t =>
+    if t.startsWith "+" then do
+      let (sel, n) ← parseStray t
+      let op ← parseBase ws.dropLast
+      let who ← senderOf op
+      if sel > c.nv then none else pure (.attach who sel n op)
+    else parseBase ws
+
 def stepLine (c : Cfg) (s : St) (ws : List String) : St × String :=
-  match parseOp ws with
+  match parseOp c ws with
   | none => (s, "bad-op")
   | some op =>
     match step c s op with
